@@ -4,6 +4,7 @@
 mod c01;
 mod c02;
 mod c04;
+mod c05;
 mod c12;
 mod c13;
 mod gen_builders;
@@ -16,6 +17,7 @@ fn run_property(id: &str, tier: &str) -> Option<Run> {
         "C01" => c01::run(tier),
         "C02" => c02::run(tier),
         "C04" => c04::run(tier),
+        "C05" => c05::run(tier),
         "C12" => c12::run(tier),
         "C13" => c13::run(tier),
         _ => return None,
@@ -41,6 +43,7 @@ fn main() {
             "C01" => c01::replay(&v["replay"]),
             "C02" => c02::replay(&v["replay"]),
             "C04" => c04::replay(&v["replay"]),
+            "C05" => c05::replay(&v["replay"]),
             "C12" => c12::replay(&v["replay"]),
             "C13" => c13::replay(&v["replay"]),
             _ => Err(format!("no replay for property {prop}")),
